@@ -1,5 +1,7 @@
 import Gbo.Model.Connect
 import Gbo.Proofs.Provenance
+import Gbo.Proofs.SweepProvenance
+import Gbo.Props.C13
 /-
   C04 — output geometry comes from the inputs.  Proved here: every ring the model hands to the result is
   closed (what `Polygon::new` / `LineString::close` guarantees) and on the shortcut path the rings are the
@@ -65,5 +67,16 @@ theorem C04_step_provenance_exact (cfg : Cfg) (st st' : SwSt) (se1 se2 o1 o2 r :
     (h : possibleIntersection Arith.exact cfg st se1 se2 = .ok (r, st')) :
     PointsIn st'.arena Q :=
   (C04_step_provenance Arith.exact cfg st st' se1 se2 o1 o2 r Q h1 h2 hs1 hs2 ho1 ho2 hQ (fun q hq => hq) hi h).1
+
+/-- **No invented vertices — the whole sweep, every input, every arithmetic.**  Whenever `subdivide` returns,
+    the point of every event in its arena is *generated* from the points of the events `fill_queue` created
+    (the operands' vertices): it is one of them, or an intersection point the routine computed for two segments
+    whose four endpoints are generated, or such a point moved by the one-ulp bump of `divide_segment`.  (The
+    contours assembled afterwards consist of event points only.)  Under exact arithmetic the bump is the
+    identity, so every vertex is an input vertex or an exact intersection point of two sub-segments. -/
+theorem C04_subdivide_provenance (ar : Arith) (cfg : Cfg) (a b : MPoly) (op : Op) (sb cb : BBox) (sw : SweepOut)
+    (h : subdivide ar cfg (fillQueue a b op).fq sb cb op = .ok sw) :
+    PointsIn sw.arena (Gen ar (fun p => ∃ i, i < (fillQueue a b op).fq.arena.size ∧ (fillQueue a b op).fq.arena[i]!.point = p)) :=
+  subdivide_provenance ar cfg _ sb cb op sw h (C13_links_initial a b op)
 
 end Gbo.Props
